@@ -201,6 +201,9 @@ Proof.
   destruct (loop true o n L bags fuel 0 (init_sel o order) L0) as [sel loss| |]; [eauto|congruence|congruence].
 Qed.
 
+Lemma greedy_never_raises o n order L0 L bags fuel : greedy true o n order L0 L bags fuel <> ErrAllNaN.
+Proof. unfold greedy. apply loop_no_error. reflexivity. Qed.
+
 (* a concrete fuel for the early-stopping class *)
 Definition fuel_es (L0 eps : Q) : nat := S (Z.to_nat (Qfloor (L0 / eps))).
 
